@@ -177,8 +177,14 @@ package s3mem
 //@                             obj.Range.Start == gofakes3.specRangeStart(rangeRequest.FromEnd, rangeRequest.Start, rangeRequest.End, len(bi.body)) &&
 //@                             obj.Range.Length == gofakes3.specRangeLen(rangeRequest.FromEnd, rangeRequest.Start, rangeRequest.End, len(bi.body)))
 //@ ensures [C11]     whole:  imp(err == nil && (!withBody || rangeRequest == nil), obj.Range == nil)
+//@ let SRC = br_src(dyn(dyn(obj.Contents, s3io.ReaderWithDummyCloser).Reader, *bytes.Reader))
+//@ ensures [C01]     contents: imp(err == nil && withBody, typeis(obj.Contents, s3io.ReaderWithDummyCloser) &&
+//@                             typeis(dyn(obj.Contents, s3io.ReaderWithDummyCloser).Reader, *bytes.Reader) &&
+//@                             sllen(SRC) == ite(obj.Range == nil, len(bi.body), obj.Range.Length) &&
+//@                             all(i, 0, sllen(SRC), slbyte(SRC, i) == bi.body[ite(obj.Range == nil, 0, obj.Range.Start) + i]))
+//@ ensures [C01]     nobody: imp(err == nil && !withBody, typeis(obj.Contents, s3io.NoOpReadCloser))
 //@ ensures           fresh:  imp(obj != nil, fresh(obj))
-//@ modifies nothing
+//@ modifies br_src
 
 //@ func newBucket
 //@ props C02 C09
@@ -244,6 +250,10 @@ package s3mem
 //@                             ret0.Size == len(objAt(bkt(db, bucketName), objectName).data.body) &&
 //@                             ret0.Hash == objAt(bkt(db, bucketName), objectName).data.hash && ret0.Metadata == objAt(bkt(db, bucketName), objectName).data.metadata &&
 //@                             ret0.Contents != nil)
+//@ let GSRC = br_src(dyn(dyn(ret0.Contents, s3io.ReaderWithDummyCloser).Reader, *bytes.Reader))
+//@ ensures [C01]     body:   imp(ret1 == nil, typeis(ret0.Contents, s3io.ReaderWithDummyCloser) && typeis(dyn(ret0.Contents, s3io.ReaderWithDummyCloser).Reader, *bytes.Reader) &&
+//@                             sllen(GSRC) == ite(ret0.Range == nil, len(objAt(bkt(db, bucketName), objectName).data.body), ret0.Range.Length) &&
+//@                             all(i, 0, sllen(GSRC), slbyte(GSRC, i) == objAt(bkt(db, bucketName), objectName).data.body[ite(ret0.Range == nil, 0, ret0.Range.Start) + i]))
 //@ ensures [C11]     range:  imp(ret1 == nil && rangeRequest != nil, ret0.Range != nil &&
 //@                             ret0.Range.Start == gofakes3.specRangeStart(rangeRequest.FromEnd, rangeRequest.Start, rangeRequest.End, ret0.Size) &&
 //@                             ret0.Range.Length == gofakes3.specRangeLen(rangeRequest.FromEnd, rangeRequest.Start, rangeRequest.End, ret0.Size))
@@ -264,6 +274,10 @@ package s3mem
 //@                             objAt(B, objectName).data != nil && objAt(B, objectName).data.name == objectName &&
 //@                             len(objAt(B, objectName).data.body) == size && objAt(B, objectName).data.metadata == meta &&
 //@                             !objAt(B, objectName).data.deleteMarker && fresh(objAt(B, objectName).data))
+//@ ensures [C01]     body:   imp(err == nil, all(i, 0, size, objAt(B, objectName).data.body[i] == rd_data(input)[old(rd_pos(input)) + i]))
+//@ ensures [C01]     hashlen: imp(err == nil, len(objAt(B, objectName).data.hash) == 16)
+//@ ensures [C01]     hash:   imp(err == nil, all(i, 0, 16, objAt(B, objectName).data.hash[i] == md5.Sum(objAt(B, objectName).data.body)[i]))
+//@ ensures [C01]     etag:   imp(err == nil, objAt(B, objectName).data.etag == "\"" + hex.EncodeToString(objAt(B, objectName).data.hash) + "\"")
 //@ ensures [C05]     vid:    imp(err == nil, result.VersionID == ite(B.versioning == gofakes3.VersioningEnabled, objAt(B, objectName).data.versionID, ""))
 //@ ensures [C02,C10] others: imp(err == nil, allstr(n, imp(n != objectName, hasObj(B, n) == old(hasObj(B, n)) && objAt(B, n) == old(objAt(B, n)))))
 //@ ensures [C10]     buckets: allstr(n, has(db.buckets, n) == old(has(db.buckets, n)) && db.buckets[n] == old(db.buckets[n]))
